@@ -164,7 +164,7 @@ fn test(c: &Case, st: &mut Stats) -> TestResult {
     // A deviation is only blamed on the other agents if the same history with neighbouring
     // parameters (never seen before in this process) behaves correctly in isolation and deviates
     // again next to them; otherwise it is a plain timing / life-cycle defect (C05, C06).
-    if h.ops.iter().any(|o| matches!(o, Op::SendConfigured { .. } | Op::Configure { .. })) {
+    if h.ops.iter().any(|o| matches!(o, Op::SendConfigured { .. } | Op::Configure { .. } | Op::Response { .. })) {
         // every poll a drain: which transaction a single poll serves first depends on the map order of
         // the agent instance, and a verdict that compares two executions must not depend on that
         let drained = History {
@@ -175,11 +175,8 @@ fn test(c: &Case, st: &mut Stats) -> TestResult {
         let h = &drained;
         let with = guard(|| agentsim::run_history_with_interference(h)).map_err(|p| Fail::new("c20-panic", p))?;
         st.class("history with configured timeouts run next to near-identical agents");
-        // only what other agents could plausibly disturb through shared state is examined here: the
-        // schedule, the life cycle and the payload (peer validation and authentication verdicts are
-        // functions of the messages alone and are judged by C15 / C07 in isolation)
         let disturbed = match &with {
-            Err(d) if ["C05", "C06", "C18"].contains(&d.tag) => Some(d.clone()),
+            Err(d) => Some(d.clone()),
             _ => None,
         };
         if let Some(d) = disturbed {
